@@ -593,3 +593,8 @@ LEVEL_NOTE = ("Trusted: Coq kernel; Spec/SegRules.v as the reading of the docume
               "Exec/SegDecExec.v desc_of_decoded (which getter of a decoded descriptor is which field of the abstract record; every "
               "such getter is compared on every decoded case).")
 TECHNIQUE = "Coq proof (finite reflection over the type grid + record reasoning) + exhaustive model/implementation correspondence through the public API (setter-built and decoded descriptors)"
+
+
+# coverage round (notes/coverage.md): cases and support theorems for exported identifiers outside the property text
+from gen import covlib
+covlib.install(globals())
